@@ -27,11 +27,11 @@ CHECKS = {
  "C06": ("order-type abstract interpretation of time_slice into a recording result graph; endpoint-convention typing; purity",
          "For every order type of the window against a canonical timeline: exactly one add_interaction(u, v, max(a,F), min(b,T)+1) per interval meeting the window, none otherwise, in order; ValueError iff t_to < t_from; default t_to = t_from; result class; node attributes; source untouched.",
          "3.2, 4/C06"),
- "C09": ("abstract interpretation of generate_snapshots; writer/reader/parser table agreement (shape rules with slots); parameter-flow analysis; decorator rule",
-         "Structural necessary conditions of the round trip: one row per (interaction, instant), unswapped, requested delimiter; modes / path index / encoding / delimiter flow; parser order of operations and column table; 4-column rows handed over as (t, vanishing e). Equality of graphs is NOT decided.",
+ "C09": ('abstract interpretation of generate_snapshots (canonical timelines), of parse_snapshots on a structural model of text lines, and of the open_file wrapper; writer/reader table and parameter-flow rules',
+         "Structural necessary conditions of the round trip: one row per (interaction, instant), unswapped, requested delimiter; every row shape of the grammar x delimiter x nodetype/timestamptype/keys is skipped or handed to add_interaction as (u, v, t, vanishing e) with the right columns, TypeError on failing conversions; string paths opened by extension and closed, caller's file objects untouched; modes / path index / encoding / delimiter flow. Equality of graphs after a round trip is NOT decided.",
          "3.1, 3.6, 4/C09"),
- "C10": ("abstract interpretation of generate_interactions and of the '+'/'-' replay dispatch over order types; table agreement; flow",
-         "One row per stream event; '+' replayed as a point add, '-' at s as a single add with e=s exactly when s is after the last end (all order types, both classes); parser/reader/writer tables agree. Equality of graphs/streams after a round trip is NOT decided beyond these clauses.",
+ "C10": ('abstract interpretation of generate_interactions, of parse_interactions on text-line and two-row event-log models over order types, and of the open_file wrapper; table/flow rules',
+         "One row per stream event; a log '+ p' / '- s' is replayed as add(p) and one add(t in [p,p+1], e=s) exactly when s > p (all orderings, both classes); every row shape handled as the format demands; tables agree. Logs with several interleaved pairs and equality of graphs/streams after a round trip are NOT decided beyond these clauses.",
          "3.2, 3.6, 4/C10"),
  "C11": ("abstract interpretation of node_link_data (canonical timelines) and of node_link_graph on symbolic data",
          "Writer: directed flag, graph attrs, one entry per node with id, exactly one link per instant of presence, unswapped. Reader: class from the data (argument only as fallback), every node under its id with remaining attrs, one add_interaction per link, graph attrs. JSON equality itself is not decided.",
@@ -39,23 +39,23 @@ CHECKS = {
  "C16": ("abstract interpretation of the conversions into a recording result graph; endpoint-convention typing; swallowed-rejection rule; purity",
          "Every stored interval [a,b] is re-added as (a, b+1) with instants (never the stored list objects); all nodes added; graph/node attributes deep-copied; no write to the source; no try around add_interaction with a broad silent handler. The to_directed one-direction behaviour is a known finding. Reciprocal intersection: conventions of its operands only (quick).",
          "3.1, 3.3 P6, 4/C16"),
- "C18": ("shape rules with slots over the parsers and read_ids against the format tables; rank-map recogniser",
-         "Comment cut / strip / split / field-count filter / pop order / conversions-to-TypeError / keys remap order, identical discipline in read_ids, and compact_timeslot = enumerate(sorted(.)) rank map.",
+ "C18": ('abstract interpretation of both parsers and read_ids on a structural model of text lines; compact_timeslot on symbolic timestamps over all orderings',
+         'Every row shape of the grammar (valid, 4-column, extra column, short, trailing comment, comment only, empty, bare newline, blanks, padded, no newline) x delimiter None/explicit x nodetype/timestamptype/keys: skipped silently, or exactly one add_interaction with converted/ranked fields of the right columns, or TypeError for a failing conversion; read_ids ranks exactly the time fields of accepted rows; compact_timeslot returns ranks (negative timestamps included when it compares with literals).',
          "3.6, 4/C18"),
  "C19": ("override/blocking closure over the parsed source of the installed networkx (MRO-resolved self-call graph + taint effects); decorator body analysis; freeze coverage",
          "Every public callable of the MRO that can change adjacency/node structure through self is a timestamped owner or lands on an always-raising override; required-blocked names resolve to always-raising definitions; base-class calls go to the direct base and reset both indexes; freeze shadows every mutator not blocked for all graphs. Pinned deviations (freeze vs add_interaction; update(nodes=)) are known findings.",
          "3.5, 4/C19"),
- "C12": ("abstract interpretation of temporal_dag's window construction over all orderings; shape rules on the hop pipeline",
-         "Narrow: the ids expanded are exactly those in [start, end] (defaults first/last), in ascending order; hop times are the snapshot at which neighbours were asked; equal-time / reversal filters, non-empty, keying and de-duplication are present; nothing is returned when u is absent at start. Chaining/presence/waiting over runtime graph data are NOT decided.",
+ "C12": ('abstract interpretation of time_respecting_paths (temporal_dag inlined, simple paths computed on the recorded DAG) on symbolic temporal graphs with presence as an uninterpreted predicate; window construction over all orderings',
+         'Every returned path is judged against every clause of the statement (non-empty, leaves u, chained, strictly increasing times in the window, each hop present and oriented, no reversal, waiting only through active instants, reaches v, key, no duplicates) on bounded shapes (3-4 nodes, 2-3 stored pairs, ids t+1,t+2,t+4, all presence valuations; directed and undirected); the ids expanded are exactly those in [start,end] for all orderings. Larger graphs and completeness (C13) are not decided.',
          "4/C12"),
  "C14": ("abstract interpretation of annotate_paths on generic paths over all orderings (ties) and input permutations",
          "The five answers equal the argmin sets for every ordering of hop counts, durations and arrival times of three generic paths, in every input order (2197 order types x 6); zero-valued minima covered when the code tests for truth.",
          "3.6 S2, 4/C14"),
- "C15": ("abstract interpretation of temporal_dag's prefix (defaults, guard, id window; bisect/slices as rank arithmetic); shape rules on the expansion loop",
-         "ValueError exactly for windows not inside [first id, last id] or with start > end; empty DAG without snapshots; the loop visits exactly the ids of the window, ascending; neighbours asked at / occurrences stamped with the loop's id; exact occurrence matching; expiry by neighbors(.., tid). Source/target exactness and acyclicity over graph contents are NOT decided.",
+ "C15": ('abstract interpretation of temporal_dag on symbolic temporal graphs (recording DAG, structured occurrence names) judged clause by clause; prefix (defaults, guard, window; bisect/slices as rank arithmetic) over all orderings',
+         'Edge soundness and orientation, s<t except from source occurrences, sources exact, targets occurrences of v and DAG nodes, waiting only through active instants - on bounded shapes incl. a label that is a prefix of another and non-chronological insertion order of snapshot ids; ValueError exactly for invalid windows; empty DAG without snapshots; window ids exact and ascending for all orderings. Acyclicity follows from s<t on these clauses; larger graphs are not decided.',
          "3.2, 4/C15"),
- "C17": ("sibling cross-check of the four inter-event functions; event index roles; denominator resolution; interval-length typing",
-         "Narrow: siblings agree up to the node filter (source / target / either); gaps = time - previous time over the stream with the previous event advanced; coverage / node_contribution / edge_contribution divide by the number of snapshot ids; closed-interval length is end - start + 1. Numerical definitions are NOT decided.",
+ "C17": ('abstract interpretation of the four inter-event distributions on symbolic event streams and of seven ratio statistics on a symbolic graph (exact fractions); interval-length typing; purity',
+         'Global / per-node (either, source, target) / per-pair distributions equal the gap histograms on streams with ties, equal gaps and an emptied log bucket; coverage, node_contribution, uniformity, node_pair_uniformity, density, pair_density, node_presence equal their definitions on all 16 presence valuations of a 4-node graph with two non-adjacent snapshot ids; edge_contribution measures closed intervals as end-start+1; observers pure. node_density / snapshot_density not covered; bounded shapes.',
          "4/C17"),
 }
 NA = [
